@@ -820,6 +820,10 @@ func (fr *frame) typeAssert(x *ssa.TypeAssert) Val {
 	_, ubx := u.boxFns(at, srt)
 	ok := fmt.Sprintf("(= (i_tag %s) %d)", it, u.eng.typeID(at))
 	val := Val{t: fmt.Sprintf("(ite %s (%s (i_pay %s)) %s)", ok, ubx, it, u.zero(at)), typ: at}
+	// the value held by an interface is a well-typed value of its dynamic type
+	if ti := u.typeInvariant(fmt.Sprintf("(%s (i_pay %s))", ubx, it), at, 0); ti != "" {
+		fr.assume("(=> " + ok + " " + ti + ")")
+	}
 	return mk(val, ok)
 }
 
